@@ -56,10 +56,15 @@ DoTamper(st, k, how, k2) ==
   IF how = "swap" /\ k2 \in DOMAIN st.file /\ st.file[k2].own >= 0 /\ st.file[k].own >= 0
     THEN [st EXCEPT !.file[k] = st.file[k2]]
   ELSE [st EXCEPT !.file[k] = Damaged(st.file[k])]
-\* every file under the store directory damaged
-DoTamperAll(st) ==
-  [st EXCEPT !.file = [k \in DOMAIN st.file |-> IF st.file[k] = NoFile THEN NoFile ELSE Damaged(st.file[k])],
-             !.rt = IF st.rt = "none" THEN "none" ELSE "tampered"]
+\* every file under the store directory modified; clean = the keys whose file is, byte for byte, what the store wrote
+\* (two modifications can cancel out), rtclean = the same for the files of the transport
+DoTamperAll(st, clean, rtclean) ==
+  [st EXCEPT !.file = [k \in DOMAIN st.file |-> IF st.file[k] = NoFile THEN NoFile
+                                               ELSE IF k \in clean THEN st.orig[k] ELSE Damaged(st.file[k])],
+             !.rt = IF st.rt = "none" THEN "none" ELSE IF rtclean THEN "stored" ELSE "tampered"]
+\* one key's file modified behind the store's back
+DoTamperKey(st, k, how, k2, clean) ==
+  IF k \in clean THEN [st EXCEPT !.file[k] = st.orig[k]] ELSE DoTamper(st, k, how, k2)
 DoMode(st, m) == [st EXCEPT !.mode = m]
 \* the transport stored a response whose body is value v / fetched a response because it could not use the stored one
 DoRtStore(st, v) == [st EXCEPT !.rt = "stored", !.rtv = v, !.rtwm = st.mode]
